@@ -128,11 +128,35 @@ theorem expNegMax_real (tmax : Option ℝ) (tau : ℝ) : expNegMax tmax tau = sp
   | none => simp only [expNegMax, specE]; norm_num
   | some m => simp only [expNegMax, specE, RealLike.exp]
 
+/-- `e^{−lo/τ} · (1 − e^{−(m − lo)/τ}) = e^{−lo/τ} − e^{−m/τ}`: the factored window probability of the code is the
+    textbook one, and its second factor is positive on a proper window -/
+theorem exp_logWindow (lo : ℝ) (tmax : Option ℝ) (tau : ℝ)
+    (hd : specE tmax tau < Real.exp (-lo / tau)) :
+    Real.exp (-lo / tau) * Real.exp (logWindow (tmax.map fun m => m - lo) tau)
+      = Real.exp (-lo / tau) - specE tmax tau := by
+  cases tmax with
+  | none =>
+    simp only [Option.map_none, logWindow, specE]
+    have h0 : ((0.0 : ℝ)) = 0 := by norm_num
+    rw [h0, Real.exp_zero]; ring
+  | some m =>
+    simp only [Option.map_some, logWindow, specE, RealLike.log, RealLike.exp] at hd ⊢
+    have h1 : ((1.0 : ℝ)) = 1 := by norm_num
+    have hsplit : Real.exp (-m / tau) = Real.exp (-lo / tau) * Real.exp (-(m - lo) / tau) := by
+      rw [← Real.exp_add]; congr 1; ring
+    have hpos : 0 < 1 - Real.exp (-(m - lo) / tau) := by
+      have he := Real.exp_pos (-lo / tau)
+      have : Real.exp (-lo / tau) * Real.exp (-(m - lo) / tau) < Real.exp (-lo / tau) * 1 := by
+        rw [← hsplit, mul_one]; exact hd
+      have := lt_of_mul_lt_mul_left this he.le
+      linarith
+    rw [h1, Real.exp_log hpos, hsplit]; ring
+
 theorem exp_normTermCont (tmin : ℝ) (tmax : Option ℝ) (c : Comp ℝ) (ha : 0 < c.amp)
     (hd : specE tmax c.tau < Real.exp (-tmin / c.tau)) :
     Real.exp (normTermCont tmin tmax c) = c.amp * (Real.exp (-tmin / c.tau) - specE tmax c.tau) := by
-  simp only [normTermCont, RealLike.log, RealLike.exp, expNegMax_real]
-  rw [Real.exp_add, Real.exp_log ha, Real.exp_log (by linarith)]
+  simp only [normTermCont, RealLike.log]
+  rw [Real.exp_add, Real.exp_add, Real.exp_log ha, exp_logWindow tmin tmax c.tau hd]
 
 theorem exp_logNormCont (comps : List (Comp ℝ)) (hne : comps ≠ []) (hadm : Admissible comps)
     (tmin : ℝ) (tmax : Option ℝ) (hwin : ∀ c ∈ comps, specE tmax c.tau < Real.exp (-tmin / c.tau)) :
@@ -176,9 +200,14 @@ theorem exp_normTermDisc (tmin : ℝ) (tmax : Option ℝ) (step : ℝ) (c : Comp
     Real.exp (normTermDisc tmin tmax step c)
       = c.amp * c.tau * (1 - Real.exp (-step / c.tau))
           * (Real.exp (-(tmin - step) / c.tau) - specE tmax c.tau) := by
-  simp only [normTermDisc, RealLike.log, RealLike.exp, expNegMax_real, discFactor_real]
-  rw [Real.exp_add, Real.exp_add, Real.exp_add, Real.exp_log ha, Real.exp_log ht,
-    Real.exp_log (by linarith), Real.exp_log (discFactor_pos step c.tau hs ht)]
+  have hw : (tmax.map fun m => m - tmin + step) = tmax.map fun m => m - (tmin - step) := by
+    cases tmax with
+    | none => rfl
+    | some m => simp only [Option.map_some]; congr 1; ring
+  simp only [normTermDisc, RealLike.log, discFactor_real]
+  rw [hw, Real.exp_add, Real.exp_add, Real.exp_add, Real.exp_add, Real.exp_log ha, Real.exp_log ht,
+    Real.exp_log (discFactor_pos step c.tau hs ht), mul_assoc (c.amp * c.tau),
+    exp_logWindow (tmin - step) tmax c.tau hd]
   ring
 
 theorem exp_logNormDisc (comps : List (Comp ℝ)) (hne : comps ≠ []) (hadm : Admissible comps)
@@ -366,10 +395,10 @@ def openObs (p : ℝ × ℝ) : Obs ℝ := ⟨p.1, p.2, none, none⟩
 theorem logLikObs_one (a tau : ℝ) (p : ℝ × ℝ) :
     logLikObs [⟨a, tau⟩] (openObs p) = -Real.log tau - (p.1 - p.2) / tau := by
   unfold logLikObs logComps openObs
-  simp only [List.map_cons, List.map_nil, lse_singleton, normTermCont, expNegMax, RealLike.log,
-    RealLike.exp]
+  simp only [List.map_cons, List.map_nil, lse_singleton, normTermCont, logWindow, Option.map_none,
+    RealLike.log]
   have : ((0.0 : ℝ)) = 0 := by norm_num
-  rw [this, sub_zero, Real.log_exp]
+  rw [this]
   ring
 
 theorem logLik_one (a tau : ℝ) (ps : List (ℝ × ℝ)) :
